@@ -292,6 +292,8 @@ var c20templates = []string{
 	/* 16 */ "if f(\x01) then g = 1 elseif f(\x01, \x02) then g = 2 elseif f() then g = 3 elseif f(\x03) then g = 4 end\n",
 	/* 17 */ "if o:m(\x01) then g = 1 elseif o:n(\x01) then g = 2 elseif o:m(\x02) then g = 3 elseif o.m(\x01) then g = 4 end\n",
 	/* 18 */ "local r = f(\x01) == f(\x01, \x02)\nlocal s = f(\x01, \x02) == f(\x01)\nlocal u = f(\x01) == f(\x02)\nt[f()] = t[f(\x01)]\n",
+	// a name compared with a string literal that spells the name is not the same operand twice
+	/* 19 */ "local r = \x01 == \"\x02\"\nlocal s = \"\x01\" ~= \x01\nlocal u = t.\x01 == \"t.\x01\"\nlocal w = \x01 or \"\x02\"\nlocal z = \"\x01\" == \"\x02\"\n",
 }
 
 func VerifRun_C20() {
